@@ -91,3 +91,56 @@ func VerifEncodeGET(encoding, apiPath string, nodes []VerifNode) ([]byte, error)
 	}
 	return enc.EncodeGET(subs[nodes[0].RID])
 }
+
+// VerifGCNode is one subscription of a synthetic subscription graph for the collector.
+type VerifGCNode struct {
+	Direct, Indirect, IndirectSent int
+	State                          int   // subscriptionState
+	Refs                           []int // children (node indices); one entry per distinct child
+	Present                        bool  // registered on the connection (input and result)
+}
+
+// VerifGC builds the graph on a bare connection and runs the real counter update and collector:
+// op "direct": removeCount(target, direct, _, count, tryDelete=true); op "indirect": removeCount(target, indirect, sent, 1, true);
+// op "trydelete": tryDelete(target). It returns the nodes afterwards (panics are reported as text).
+func VerifGC(nodes []VerifGCNode, op string, target int, sent bool, count int) (out []VerifGCNode, panicText string) {
+	c := &wsConn{cid: "verif", subs: map[string]*Subscription{}}
+	subs := make([]*Subscription, len(nodes))
+	rid := func(i int) string { return "n" + string(rune('a'+i)) }
+	for i, n := range nodes {
+		subs[i] = &Subscription{rid: rid(i), c: c, state: subscriptionState(n.State), direct: n.Direct, indirect: n.Indirect,
+			indirectsent: n.IndirectSent, typ: rescache.TypeModel, resourceSub: rescache.NewVerifDummyRS(rid(i))}
+		if n.Present {
+			c.subs[rid(i)] = subs[i]
+		}
+	}
+	for i, n := range nodes {
+		if len(n.Refs) > 0 {
+			subs[i].refs = map[string]*reference{}
+			for _, ch := range n.Refs {
+				subs[i].refs[rid(ch)] = &reference{sub: subs[ch], count: 1}
+			}
+		}
+	}
+	func() {
+		defer func() {
+			if e := recover(); e != nil {
+				panicText = "panic"
+			}
+		}()
+		switch op {
+		case "direct":
+			c.removeCount(subs[target], true, false, count, true)
+		case "indirect":
+			c.removeCount(subs[target], false, sent, 1, true)
+		default:
+			c.tryDelete(subs[target])
+		}
+	}()
+	out = make([]VerifGCNode, len(nodes))
+	for i, s := range subs {
+		_, present := c.subs[rid(i)]
+		out[i] = VerifGCNode{Direct: s.direct, Indirect: s.indirect, IndirectSent: s.indirectsent, State: int(s.state), Present: present && c.subs[rid(i)] == s}
+	}
+	return out, panicText
+}
